@@ -21,6 +21,7 @@
 package engine
 
 import (
+	"fmt"
 	"go/token"
 	"reflect"
 
@@ -107,7 +108,9 @@ func (r SliceReplacer) Replace(d data.Data, cl Changelog, pos token.Pos) (reflec
 		if err != nil {
 			return reflect.Value{}, err
 		}
-		v.Index(i).Set(item)
+		if err := set(v.Index(i), item); err != nil {
+			return reflect.Value{}, err
+		}
 	}
 
 	return v, nil
@@ -143,7 +146,9 @@ func (r StructReplacer) Replace(d data.Data, cl Changelog, pos token.Pos) (refle
 		if err != nil {
 			return reflect.Value{}, err
 		}
-		v.Field(i).Set(fv)
+		if err := set(v.Field(i), fv); err != nil {
+			return reflect.Value{}, err
+		}
 	}
 	return v, nil
 }
@@ -173,7 +178,9 @@ func (r InterfaceReplacer) Replace(d data.Data, cl Changelog, pos token.Pos) (re
 	}
 
 	v := reflect.New(r.Type).Elem()
-	v.Set(x)
+	if err := set(v, x); err != nil {
+		return reflect.Value{}, err
+	}
 	return v, nil
 }
 
@@ -183,4 +190,22 @@ type ValueReplacer struct{ Value reflect.Value }
 // Replace replaces a value as-is.
 func (r ValueReplacer) Replace(data.Data, Changelog, token.Pos) (reflect.Value, error) {
 	return r.Value, nil
+}
+
+// set assigns x to v.
+//
+// Patches are not type checked: a metavariable that matched an arbitrary
+// expression may be used where Go only allows an identifier, a statement may
+// end up in a list of expressions, and so on. Report that as an error instead
+// of letting reflect panic.
+func set(v, x reflect.Value) error {
+	if !x.IsValid() || !x.Type().AssignableTo(v.Type()) {
+		got := "nothing"
+		if x.IsValid() {
+			got = x.Type().String()
+		}
+		return fmt.Errorf("cannot build replacement: %v cannot be used where %v is expected", got, v.Type())
+	}
+	v.Set(x)
+	return nil
 }
